@@ -818,6 +818,8 @@ class Element(object):
         """
         if self.parent is not None:
             return self.parent.encoding_chars
+        if self.traversal_parent is not None:  # a child reached by traversal and not assigned yet
+            return self.traversal_parent.encoding_chars
         return get_default_encoding_chars(self.version)
 
     def _find_structure(self, reference=None):
